@@ -168,9 +168,16 @@ def run_job(job, rec):
             # the first chains are the slowest: completion order differs from list order
             delay = mc.SleepPlan(1, i, base=(0.004 * (size - i) if (c % 2 == 0 and size > 1) else 0.0))
             tgt = mc.GaussTarget(np.zeros(d), np.eye(d), delay=delay if delay.base > 0 else None)
-            ch = mc.make_sampler(kind, tgt, rng.normal(size=d) * 0.3, rng, grad=tgt.grad, display_progress=display, seed=int(rng.integers(2**31)))
+            im = None
+            if kind == "hmc" and rng.random() < 0.6:
+                # every accepted mass specification: per-parameter variances or a dense matrix
+                Bm = rng.normal(size=(d, d))
+                im = (Bm @ Bm.T / d + 0.5 * np.eye(d)) if (d >= 2 and rng.random() < 0.7) else rng.uniform(0.5, 2.0, size=d)
+                kind = "hmc/matrix-mass" if np.ndim(im) == 2 else "hmc/vector-mass"
+            ch = mc.make_sampler(kind.split("/")[0], tgt, rng.normal(size=d) * 0.3, rng, grad=tgt.grad, display_progress=display, seed=int(rng.integers(2**31)), inverse_mass=im)
             chains.append(ch)
             kinds.append(kind)
+            rec.count("pool_chain_kinds:" + kind)
         twins = [copy.deepcopy(ch) for ch in chains]
         n_adv = [int(v) for v in rng.choice([0, 1, 7, 23, 40], size=int(rng.integers(1, 3)))]
         pctx = {"pool": c, "size": size, "kinds": kinds, "display_progress": display, "advances": n_adv}
@@ -234,13 +241,21 @@ def run_job(job, rec):
         clock = VirtualClock()
         tgt = CostedTarget(clock, cost, d)
         ch = mc.make_sampler(kind, tgt, np.zeros(d) + 0.1, rng, grad=tgt.grad, display_progress=bool(rng.random() < 0.2), seed=int(rng.integers(2**31)))
+        # the chain may already hold samples (earlier advance / run_for / load): the timed run must behave the same
+        pre = int(rng.choice([0, 0, 60, 700, 5000])) if kind != "hmc" else int(rng.choice([0, 0, 30, 150]))
+        if pre:
+            r0 = guarded(ch.advance, pre)
+            if isinstance(r0, Raised):
+                rec.violation("raised", f"{kind}: advance({pre}) before the timed run raised {r0!r}", {"timed": c, "kind": kind})
+                continue
+            rec.count("run_for:on_pre_advanced_chain")
         unit = str(rng.choice(["minutes", "hours", "days"]))
         val = budget / {"minutes": 60.0, "hours": 3600.0, "days": 86400.0}[unit]
         kw = {unit: val}
         if rng.random() < 0.2:
             kw = {"minutes": 0.4 * budget / 60.0, "hours": 0.6 * budget / 3600.0}
         run_time = ((kw.get("days", 0) * 24.0 + kw.get("hours", 0)) * 60.0 + kw.get("minutes", 0)) * 60.0
-        tctx = {"timed": c, "kind": kind, "d": d, "cost_per_posterior_call_s": cost, "budget_s": run_time, "args": kw}
+        tctx = {"timed": c, "kind": kind, "d": d, "cost_per_posterior_call_s": cost, "budget_s": run_time, "args": kw, "samples_before": pre + 1}
         rec.context = tctx
         rec.count("run_for_runs")
         if regime in ("slow", "very_slow"):
